@@ -169,6 +169,41 @@ func runC03(c *Ctx) {
 			c.SpecFail("parsebool", "flag "+strconv.Quote(raw), impl, "accepted", "C03/bool/valid-rejected", "a valid bool text is rejected")
 		}
 	}
+	// ---------- enum: numbers (with and without a declared value), declared names, near misses
+	if efd := fx.NewMsg("Req").Descriptor().Fields().ByName("kind"); efd != nil && efd.Enum() != nil {
+		var names []string
+		declared := map[string]int32{}
+		for i := 0; i < efd.Enum().Values().Len(); i++ {
+			ev := efd.Enum().Values().Get(i)
+			names = append(names, hexS(string(ev.Name()))+":"+strconv.Itoa(int(ev.Number())))
+			declared[string(ev.Name())] = int32(ev.Number())
+		}
+		texts := []string{"0", "1", "2", "-3", "7", "-9", "42", "2147483647", "-2147483648", "2147483648", "-2147483649", "null", " 1", "1 ", "01", "+1", "1.0", "1e0", "\"1\"", "", "0x1", "nul", "NULL"}
+		for n := range declared {
+			texts = append(texts, n, strings.ToLower(n), n+"X", " "+n, "\""+n+"\"")
+		}
+		for _, raw := range texts {
+			v, ok := implParse(fx, "kind", raw)
+			impl := "err"
+			if ok {
+				impl = "ok " + strconv.Itoa(int(v.Enum()))
+			}
+			c.Correspond("parseenum", join("parseenum", strings.Join(names, ","), hexS(raw)), impl, raw != "")
+			c.Class("parseenum:" + impl[:2])
+			// proto3 JSON spells an enum by a declared name or by ANY int32 number (enums are open)
+			if n, err := strconv.ParseInt(raw, 10, 32); err == nil && strconv.FormatInt(n, 10) == raw {
+				if !ok || int64(v.Enum()) != n {
+					c.SpecFail("parseenum", "kind "+strconv.Quote(raw), impl, "ok "+raw, "C03/enum/number-refused", "an int32 enum number (proto3 enums are open) is refused or altered")
+				}
+			} else if want, isName := declared[raw]; isName {
+				if !ok || int32(v.Enum()) != want {
+					c.SpecFail("parseenum", "kind "+strconv.Quote(raw), impl, "ok "+strconv.Itoa(int(want)), "C03/enum/name-refused", "a declared enum value name is refused or altered")
+				}
+			} else if ok && strings.Trim(raw, " \t\r\n") == raw && raw != "null" {
+				c.SpecFail("parseenum", "kind "+strconv.Quote(raw), impl, "rejected", "C03/enum/coerced", "text that is neither an int32 literal nor a declared name is coerced to an enum value")
+			}
+		}
+	}
 	// ---------- bytes: four encodings x every short length, plus junk
 	encs := []*base64.Encoding{base64.StdEncoding, base64.RawStdEncoding, base64.URLEncoding, base64.RawURLEncoding}
 	for i := 0; i < c.N(600, 15000); i++ {
